@@ -10,8 +10,9 @@ cp seeded_out/demo.py "$OUT/demo.py"; cp seeded_out/notes.md "$OUT/notes.md" 2>/
 {
 echo "== demo with change"; PYTHONPATH=$WT PYTHONDONTWRITEBYTECODE=1 timeout 1800 /venv/bin/python seeded_out/demo.py 2>&1 | grep -v conda.cli | tail -8; echo "exit=${PIPESTATUS[0]}"
 echo "== pinned tests with change"; /tmp/sopht_env/run_pinned_tests.sh "$WT" 2>&1 | grep -v conda.cli | tail -5
-git stash -q -- sopht/
+# (not `git stash`: refs/stash is shared by all worktrees of one repository)
+git checkout -q -- sopht/
 echo "== demo on clean tree"; PYTHONPATH=$WT PYTHONDONTWRITEBYTECODE=1 timeout 1800 /venv/bin/python seeded_out/demo.py 2>&1 | grep -v conda.cli | tail -4; echo "exit=${PIPESTATUS[0]}"
-git stash pop -q
+git apply "$OUT/patch.diff"
 } > "$OUT/confirm.txt" 2>&1
 echo "confirmed $ID"
